@@ -185,6 +185,26 @@ def c02_cases(ctx, sink_variants=True):
             ops.append("ccallf - 4 -")
         k += 1
         ctx.add("c%d" % k, ops, kind="stream", data=data, fmt=fmt, level=level, strat=strat, wb=wb, sink=which)
+    # long inputs at lazy-matching levels with output buffers far smaller than one block: the in-loop
+    # flush_block cannot drain, the engines return early and must carry their saved state across calls
+    big = 6 if ctx.tier == "quick" else 40
+    words = [b"the ", b"quick ", b"brown ", b"fox ", b"jumps ", b"over ", b"the lazy ", b"dog. ", b"Deflate ", b"stream\n",
+             b"compress ", b"0123456789 ", b"lorem ipsum ", b"dolor sit amet, "]
+    for i in range(big):
+        out = bytearray()
+        n = rng.choice([150000, 250000, 400000])
+        while len(out) < n:
+            out += words[rng.below(len(words))]
+            if rng.chance(1, 9):
+                out += rng.bytes(rng.range(1, 6))
+        data = bytes(out[:n])
+        level = rng.choice([4, 5, 6, 7, 8, 9, 1, 2])
+        fmt = rng.choice([0, 2])
+        osz = rng.choice([61, 97, 509, 1000, 4093])
+        k += 1
+        ctx.add("L%d" % k, ["in %s" % hx(data), "cparams %d %d 0 15" % (fmt, level),
+                            "cdrive @ %d:%d:0" % (rng.choice([100000000, 65536, 9973]), osz)],
+                kind="stream", data=data, fmt=fmt, level=level, strat=0, wb=15, sink=0)
     # exhaustive small schedules on three short inputs
     depth = 3 if ctx.tier == "quick" else 4
     alpha = [(c, o, f) for c in (0, 1, 1000) for o in (1, 5, 100000) for f in (0, 2, 3, 4, 7)]
@@ -531,6 +551,24 @@ def c12_cases(ctx):
         ops = ["in %s" % hx(data), "cparams %d %d %d 15" % (fmt, level, strat), "cdrive @ %s" % ",".join(items)]
         k += 1
         ctx.add("f%d" % k, ops, kind="flush", data=data, fmt=fmt, level=level, strat=strat, wb=15)
+    # directed grid: every strategy x several levels x data whose redundancy spans the flush point x flush position
+    def runs_data(seed):
+        out = bytearray()
+        x = seed
+        while len(out) < 3000:
+            x = (x * 1103515245 + 12345) & 0x7FFFFFFF
+            out += bytes([x & 255]) * (3 + (x >> 8) % 400)
+        return bytes(out[:3000])
+    shapes = [b"Q" * 3000, runs_data(1), runs_data(7), (b"abcdefgh" * 40 + b"\x00" * 100) * 7, bytes(range(256)) * 12]
+    for strat in range(0, 5):
+        for level in (1, 2, 6, 9):
+            for di, data in enumerate(shapes):
+                for kk in (1, 7, 300, 1500):
+                    for fl in ((3,) if ctx.tier == "quick" else (2, 3)):
+                        ops = ["in %s" % hx(data), "cparams 2 %d %d 15" % (level, strat),
+                               "cdrive @ %d:100000:%d,100000000:200000:4" % (kk, fl)]
+                        k += 1
+                        ctx.add("g%d" % k, ops, model=False, kind="flush", data=data, fmt=2, level=level, strat=strat, wb=15)
     # no-sync then sync == sync alone
     for i in range(20 if ctx.tier == "quick" else 100):
         level = rng.choice([0, 1, 6, 9])
